@@ -304,6 +304,29 @@ WIDE_NAMES = ['report#1.txt', 'report', 'query?x=1', 'query', 'part;v2', 'part',
               'report#2.txt', 'x=1']
 
 
+def expand_links(c):
+    """the tree as open() / scandir() present it: a symlink to a file is that file, a symlink to a directory is a directory with the
+    target's contents (the copier follows links, like `cp -L`); links are resolved by the harness, the model sees the followed tree"""
+    if c.get('kind') != 'copy' or not c.get('links'):
+        return c
+    c2 = json.loads(json.dumps(c))
+    files, dirs = dict(c2['files']), list(c2['dirs'])
+    for link, target, _how in c2['links'] * 3:          # links below linked directories: repeat to a fixpoint
+        if target in files:
+            files[link] = files[target]
+        else:
+            dirs.append(link)
+            for p, t in list(files.items()):
+                if p.startswith(target + '/'):
+                    files[link + p[len(target):]] = t
+            for d in list(dirs):
+                if d.startswith(target + '/'):
+                    dirs.append(link + d[len(target):])
+    c2['files'], c2['dirs'] = files, sorted(set(dirs))
+    c2['links'] = []
+    return c2
+
+
 def rename_path(p, m):
     return '/'.join(m.get(c, c) for c in p.split('/'))
 
@@ -312,6 +335,7 @@ def rename_case(c, m):
     c2 = json.loads(json.dumps(c))
     c2['files'] = {rename_path(p, m): t for p, t in c['files'].items()}
     c2['dirs'] = [rename_path(d, m) for d in c['dirs']]
+    c2['links'] = [[rename_path(a, m), rename_path(b, m), h] for a, b, h in c.get('links', [])]
     for x in c2['xfers']:
         x['dest'] = rename_path(x['dest'], m)
         x['src'] = rename_path(x['src'], m) if isinstance(x['src'], str) else [rename_path(q, m) for q in x['src']]
@@ -351,7 +375,8 @@ class C22(Prop):
                   '(their outcome depends on the schedule); real thread-pool timing and OS-level failures are not exhibited.')
     budget = {'quick': 900, 'thorough': 12000}
     search_budget = {'quick': 1500, 'thorough': 12000}
-    rule = ('45% of the generated cases inject 1-4 transient faults (OSError ETIMEDOUT / EHOSTUNREACH, asyncio.TimeoutError: retryable '
+    rule = ('35% of the copy cases have 1-2 symlinks in the source area (to files / to directories, relative / absolute, inside / outside the '
+            'source directory, no cycles); the documented result is the tree as seen through the links; 45% of the generated cases inject 1-4 transient faults (OSError ETIMEDOUT / EHOSTUNREACH, asyncio.TimeoutError: retryable '
             'for hailtop.utils.is_transient_error) into the n-th open / open_from / create / create_part / read / readexactly / write / '
             'close / listfiles / listing step / entry stat made inside a retry_transient_errors region of the copier; a copy that returns '
             'normally must still give exactly the documented result; case kinds: plan = one file of size around k*part +-1 copied with part_size 3..7, BUFFER_SIZE 2..4 (compared: create_part and '
@@ -513,6 +538,7 @@ class C22(Prop):
                 'sched': rng.randint(0, 10 ** 6)}
 
     def _usable(self, c):
+        c = expand_links(c)
         try:
             for x in c['xfers']:
                 if x['mode'] == 'dest_is_target' and not isinstance(x['src'], str):
@@ -556,6 +582,7 @@ class C22(Prop):
                 continue
             c = self._random_copy_case(rng)
             if self._usable(c):
+                c = self._add_links(rng, c)
                 c = self._widen_names(rng, c)
                 if not self._usable(c):
                     continue
@@ -565,6 +592,37 @@ class C22(Prop):
     def extra_coverage(self):
         return {'transient_faults': dict(self.fault_stats)}
 
+    def _add_links(self, rng, c):
+        """symlinks in the source area: to files and to directories, relative and absolute, pointing inside and outside the source
+        directory; never to an ancestor (no cycles: the unchanged listing follows links and would not terminate)"""
+        if rng.random() > 0.35:
+            return c
+        c = json.loads(json.dumps(c))
+        src_dirs = sorted({'/'.join(p.split('/')[:k]) for p in list(c['files']) + c['dirs'] if p.startswith('s/')
+                           for k in range(2, len(p.split('/')) + (0 if p in c['files'] else 1))} | {'s'})
+        src_files = sorted(p for p in c['files'] if p.startswith('s/'))
+        links = []
+        for i in range(rng.choice([1, 1, 2])):
+            parent = rng.choice(src_dirs)
+            if rng.random() < 0.5 and src_files:
+                target = rng.choice(src_files)
+            else:
+                cands = [d for d in src_dirs if d != 's' and not (parent + '/').startswith(d + '/')]
+                if not cands:
+                    continue
+                target = rng.choice(cands)
+            link = f'{parent}/lnk{i}'
+            if link in c['files'] or link in c['dirs']:
+                continue
+            # acyclic by construction: no link lives below a linked directory, and no linked directory contains a link
+            under = lambda a, b: (a + '/').startswith(b + '/')
+            if any(under(parent, t) for _, t, _ in links) or any(under(lp.rsplit('/', 1)[0], target) for lp, _, _ in links) \
+                    or under(parent, target):
+                continue
+            links.append([link, target, rng.choice(['rel', 'abs'])])
+        c['links'] = links
+        return c
+
     def _widen_names(self, rng, c):
         """rename path components to names from a wide alphabet (# ? ; % & = + space , : @ ! $ ' ( ) * [ ] %20 non-ASCII, leading dot /
         dash, names that are prefixes of each other up to such a character) and sometimes address everything by file:// URLs.
@@ -572,7 +630,7 @@ class C22(Prop):
         (url_basename / url_join): at most one of the two per case, and then only with one transfer and one source."""
         if rng.random() < 0.45:
             return c
-        names = sorted({comp for p in list(c['files']) + list(c['dirs']) for comp in p.split('/')} |
+        names = sorted({comp for p in list(c['files']) + list(c['dirs']) + [a for a, _, _ in c.get('links', [])] for comp in p.split('/')} |
                        {comp for q in sum(xfer_strings(c), []) for comp in q.split('/') if comp})
         names = [n for n in names if n not in ('s', 'd', 'e', '')]
         srcs, dests = xfer_strings(c)
@@ -616,6 +674,7 @@ class C22(Prop):
 
     # ------------------------------------------------------------------------------------------ model side
     def model_lines(self, c):
+        c = expand_links(c)
         if c['kind'] == 'plan':
             return [f"plan {c['size']} {c['part']} {c['buf']}"]
         # names may contain any character but '/': everything travels as hex of UTF-8; a location is the string the tool is given,
@@ -655,6 +714,11 @@ class C22(Prop):
                 with open(full, 'wb') as fh:
                     fh.write(content(t))
                 tokens[content(t)] = norm_tok(t)
+            for link, target, how in (c.get('links') or []) if c['kind'] == 'copy' else []:
+                lp = os.path.join(scratch, link)
+                os.makedirs(os.path.dirname(lp), exist_ok=True)
+                tp = os.path.join(scratch, target)
+                os.symlink(tp if how == 'abs' else os.path.relpath(tp, os.path.dirname(lp)), lp)
             lfs.LocalAsyncFS.copy_part_size = staticmethod(lambda url, _p=c['part']: _p)
             copier.Copier.BUFFER_SIZE = c['buf']
             counter = [0]
@@ -725,7 +789,7 @@ class C22(Prop):
             else:
                 res = {'status': 'ok'}
             tree = {}
-            for root, dnames, fnames in os.walk(scratch):
+            for root, dnames, fnames in os.walk(scratch, followlinks=True):     # the tree as seen through the links (no cycles)
                 rel = os.path.relpath(root, scratch)
                 for d in dnames:
                     tree[os.path.normpath(os.path.join(rel, d))] = 'DIR'
@@ -804,6 +868,7 @@ class C22(Prop):
 
     # ------------------------------------------------------------------------------------------ the property, executably
     def oracle(self, c, impl_out):
+        c = expand_links(c)
         line = impl_out[0]
         if line.startswith('IMPL-EXC'):
             return line
@@ -876,6 +941,8 @@ class C22(Prop):
 
     # ------------------------------------------------------------------------------------------ bookkeeping
     def classify(self, c, impl_out):
+        links = c.get('links') or []
+        c = expand_links(c)
         line = impl_out[0]
         if c['kind'] == 'plan':
             n = line.count(':') // 2 if line.startswith('parts=') else 0
@@ -890,6 +957,8 @@ class C22(Prop):
             tags.append('names-from-wide-alphabet')
         if has_special(allnames):
             tags.append('names-with-#?;')
+        for _a, b, h in links:
+            tags.append('symlink-to-' + ('file' if b in c['files'] else 'dir') + ':' + h)
         if any(x.get('url') for x in c['xfers']):
             tags.append('file-url')
         multipart = any(t[1] > c['part'] for t in c['files'].values())
